@@ -1,7 +1,7 @@
 (* C06 - sum and difference equal the Cartesian sum: structural part.  Pinned theorems only. *)
 From Coq Require Import ZArith List Bool Reals Lra.
 From Flocq Require Import Core BinarySingleNaN.
-Require Import GV.FloatBase GV.FloatLemmas GV.AngleM GV.AngleProofs GV.GeonumM GV.GeonumProofs GV.TraitsM.
+Require Import GV.FloatBase GV.FloatLemmas GV.AngleM GV.AngleProofs GV.GeonumM GV.GeonumProofs GV.TraitsM GV.NewProofs GV.CtorProofs GV.PiBounds GV.TrigProofs GV.DotValue GV.DistValue.
 Open Scope R_scope.
 
 (* subtraction IS addition of the half-turned operand, in all four spellings; translate IS addition *)
@@ -37,3 +37,21 @@ Print Assumptions C06_paths.
 Theorem C06_radicand_total : forall x, nonneg_or_inf (fsqrt (fmax x zero)).
 Proof. exact sqrt_max_total. Qed.
 Print Assumptions C06_radicand_total.
+
+(* S2, REAL pi and cos: on the general path (angles neither equal nor exactly opposite) the magnitude of a + b is
+   the Euclidean length of the Cartesian sum, sqrt(|a|^2 + |b|^2 + 2|a||b|cos(dir b - dir a)), up to the square
+   root of the radicand error (|a|^2+|b|^2)(u + 1e-14) + 10*2^-1075 plus one rounding, for any libm with
+   |cosF - cos| <= u on [-8,8] *)
+Theorem C06_mag_value : forall (L : libm) (u : R) a b, cos_acc L u -> u <= / 1000 ->
+  canonp (rem (ang a)) -> canonp (rem (ang b)) ->
+  aeqb (ang a) (ang b) = false ->
+  aeqb (add_vv (ang a) (new one one)) (ang b) || aeqb (add_vv (ang b) (new one one)) (ang a) = false ->
+  fin (gadd_rad L a b) ->
+  let S := R_ (mag a) * R_ (mag a) + R_ (mag b) * R_ (mag b) in
+  let D := S + 2 * R_ (mag a) * R_ (mag b) * cos (dir (ang b) - dir (ang a)) in
+  let Bnd := S * (u + 1 / 100000000000000) + 10 * bpow radix2 (-1075) in
+  0 <= D /\
+  Rabs (R_ (mag (gadd_vv L a b)) - sqrt D)
+    <= sqrt Bnd * (1 + / 9007199254740992) + / 9007199254740992 * sqrt D + bpow radix2 (-1075).
+Proof. exact gadd_mag_value. Qed.
+Print Assumptions C06_mag_value.
